@@ -130,7 +130,14 @@ def _long(draw):
     for _ in range(draw(st.integers(0, 6))):
         cands.append(draw(st.integers(1, n - 1)))
     ndim = draw(st.sampled_from([1, 1, 2]))
-    return {"mode": "long", "n": n, "pos": sorted({c for c in cands if 1 <= c < n}), "ndim": ndim,
+    e2e = None
+    if ndim == 1 and draw(st.integers(0, 2)) == 0:
+        # the line is bit `bit` of the sync word of a one-channel recording of that length (bin or cbin): decoded through
+        # the Reader, then fronts
+        e2e = {"spec": draw(gm.st_spec(gens=("3B2", "NP2.1", "3A"), n_choices=(1,), ns_range=(n, n), patterns=("dense",),
+                                       allow_lf=False)),
+               "bit": draw(st.integers(0, 15)), "cbin": draw(st.booleans()), "chunk": draw(st.sampled_from([30000, 65536, 100000]))}
+    return {"mode": "long", "n": n, "pos": sorted({c for c in cands if 1 <= c < n}), "ndim": ndim, "e2e": e2e,
             "time_axis_first": draw(st.booleans()), "row": draw(st.integers(0, 1)),
             "dtype": draw(st.sampled_from(["int8", "int8", "float64" if n <= (1 << 19) else "int8", "int16"])),
             "axis_form": draw(st.sampled_from(["default", "kw"])), "amp": draw(st.sampled_from([1, 1, 5]))}
@@ -498,6 +505,54 @@ def _run_long(case, ctx):
         ctx.check(isinstance(r, np.ndarray) and r.shape == e.shape and np.array_equal(r, e), "C10.long." + nm,
                   lambda: f"{n} samples, events at {pos.tolist()}: {nm} at {np.asarray(r).T.tolist()[:8]}")
     ctx.check(np.array_equal(x, keep), "C10.input_modified", "a front function changed its long input")
+    if case.get("e2e"):
+        _long_e2e(case, ctx, line.astype(np.int64) // amp, pos)
+
+
+def _long_e2e(case, ctx, lev, pos):
+    sg, U = sut.spikeglx(), sut.utils()
+    e = case["e2e"]
+    spec, bit, n = e["spec"], e["bit"], case["n"]
+    nc = gm.n_channels(spec)
+    D = np.zeros((n, nc), dtype=np.int16)
+    D[:, 0] = (np.arange(n) % 1999 - 999).astype(np.int16)
+    D[:, nc - 1] = (lev.astype(np.uint16) << np.uint16(bit)).view(np.int16)
+    ctx.label("long_e2e", "long_e2e_" + ("cbin" if e["cbin"] else "bin"), "long_e2e_bit%d" % bit)
+    exp_pol = np.where(np.arange(pos.size) % 2 == 0, 1, -1)
+    with rec.scratch_dir(ctx) as d:
+        binf = rec.write_recording(d, spec, D)
+        path = rec.compress(binf, nc, spec["fs"], e["chunk"], keep_bin=False) if e["cbin"] else binf
+        sr = ctx.call("C10.open", sg.Reader, path)
+        if sr is ctx.CRASH:
+            return
+        try:
+            got = ctx.call("C10.read_sync", sr.read_sync, slice(0, n))
+            if got is ctx.CRASH:
+                return
+            if not ctx.check(isinstance(got, np.ndarray) and got.shape == (n, 16) and got.dtype == np.int8, "C10.read_sync_shape",
+                             lambda: f"read_sync of {n} samples: shape {getattr(got, 'shape', None)} dtype {getattr(got, 'dtype', None)}"):
+                return
+            col = got[:, bit]
+            bad = np.flatnonzero(col != lev)
+            ctx.check(bad.size == 0, "C10.read_sync_digital",
+                      lambda: f"{n} samples, line {bit}: decoded line differs from the written one at samples {bad[:8].tolist()}")
+            others = np.delete(got, bit, axis=1)
+            ctx.check(not others.any(), "C10.read_sync_digital", lambda: f"{n} samples: lines other than {bit} are not all zero")
+            for s_ in pos[:6].tolist():
+                a, b = max(0, s_ - 3), min(n, s_ + 4)
+                dg = ctx.call("C10.read_sync_digital", sr.read_sync_digital, slice(a, b))
+                if dg is not ctx.CRASH:
+                    ctx.check(isinstance(dg, np.ndarray) and dg.shape == (b - a, 16) and np.array_equal(dg[:, bit], lev[a:b]),
+                              "C10.read_sync_slice", lambda: f"{n} samples: digital sync slice [{a}:{b}] differs")
+            fr = ctx.call("C10.fronts", U.fronts, col)
+            if fr is not ctx.CRASH and ctx.check(isinstance(fr, tuple) and len(fr) == 2, "C10.e2e_fronts", "fronts did not return a pair"):
+                ctx.check(np.array_equal(fr[0], pos) and np.array_equal(np.asarray(fr[1], dtype=np.float64), exp_pol),
+                          "C10.e2e_fronts", lambda: f"{n} samples, events at {pos.tolist()}: recovered {np.asarray(fr[0]).tolist()[:8]}")
+        finally:
+            try:
+                sr.close()
+            except Exception:  # noqa
+                pass
 
 
 def _e2e_layout(case, ctx, U, got, exp_all, lay, ro):
